@@ -24,7 +24,7 @@ import queue_rules as Q
 
 HEADERS = ("Connection", "Transfer-Encoding", "Content-Length", "Expect")
 DEAD = ("diverge", "resume", "terminate", "unreachable")
-INT_PARSE = re.compile(r"<impl std::str::FromStr for (usize|u64|u32|u128|isize|i64)>::from_str$|<impl (usize|u64|u32)>::from_str_radix$|core::str::<impl str>::parse$")
+INT_PARSE = re.compile(r"<impl std::str::FromStr for (usize|u64|u32|u128|isize|i64)>::from_str$|<impl (usize|u64|u32)>::from_str_radix$|core::str::<impl str>::parse(::<(usize|u64|u32|u128|isize|i64)>)?(?=\s|$)")
 CMPOPS = {"Eq": lambda a, b: a == b, "Ne": lambda a, b: a != b, "Lt": lambda a, b: a < b, "Le": lambda a, b: a <= b, "Gt": lambda a, b: a > b, "Ge": lambda a, b: a >= b}
 
 
